@@ -6,6 +6,7 @@
    the captured scopes (`modify`); a `modify` target is always marked as captured; `const` marks the new ident read-only;
    a typed declaration whose value has a known incompatible type is rejected."""
 from vlib.rules import *
+from vlib.pattern import Pat
 
 IDENT = "compiler/src/ast/ident.rs"
 AT = "compiler/src/ast/assignment/assignment_type.rs"
@@ -83,6 +84,8 @@ def assign_rules(typed):
         Rule("R6", "input . user_data ( ) . get_ident_from_name_local ( ident . name ( ) )", "get_ident_from_name_local ( & input , & ident . name )", why="scope lookup abstract"),
         Rule("R6", "input . user_data ( ) . get_dependency_flags_from_name ( ident . name ( ) ) . map ( | x | x . 0 . to_owned ( ) )", "get_dependency_ident_from_name ( & input , & ident . name )", why="scope lookup abstract (the ident of the pair)"),
         Rule("R1", ". map ( | x | x . to_owned ( ) )", "", why="Option<&Ident> -> Option<Ident>: the abstract lookup already returns an owned ident"),
+        Rule("R1", ". map ( | $v | $v . clone ( ) )", "", why="Option<&Ident> -> Option<Ident>"),
+        Rule("R1", ". cloned ( )", "", why="Option<&Ident> -> Option<Ident>"),
         Rule("R6", "Self :: r#type ( ty ) . to_err_vec ( ) ?", "parse_type ( ty ) ?", why="sub-parser abstract"),
         Rule("R6", "Self :: value ( value ) ?", "parse_value ( value ) ?", why="sub-parser abstract"),
         Rule("R6", "Self :: value ( rhs ) ?", "parse_value ( rhs ) ?", why="sub-parser abstract"),
@@ -155,3 +158,165 @@ UNITS = [VUnit("c10_assign", ["C10", "C03", "C07"], "Ident const flag propagatio
 UNITS[0].assumes = ["pest API, scope lookups and sub-parsers are abstract (arbitrary results): the contracts hold for every parse tree and context",
                     "child counts of the nodes are the grammar's productions (preconditions, not proved against pest)",
                     "the const test itself is in Parser::assignment (separate obligation); diagnostics' text is dropped"]
+
+
+# =====================================================================================================================
+# Expr::for_type, arm Expr::BinOp: the const test of the writing operators (`+=` family and `?=`) and the operator check
+MATH = "compiler/src/ast/math_expr.rs"
+FT_SPEC = r"""
+pub struct Ident { pub name: VStr, pub ty: Option<TypeLayout>, pub read_only: bool }
+impl Ident {
+    pub fn is_const(&self) -> (r: bool) ensures r == self.read_only { self.read_only }
+    #[verifier::external_body] pub fn name(&self) -> (r: &VStr) ensures *r == self.name { unimplemented!() }
+}
+#[verifier::external_body] pub struct ExprV { x: usize }
+pub enum ValueE { Ident(Ident), Other(ExprV) }
+pub enum Expr { Value(ValueE), Index { x: ExprV }, DotLookup { expected_type: TypeLayout, x: ExprV }, Other(ExprV) }
+#[derive(PartialEq, Eq)]
+pub enum Op { Add, Subtract, Multiply, Divide, Modulo, Lt, Gt, Lte, Gte, Eq, Neq, And, Or, Xor, Unwrap, AddAssign, SubAssign, MulAssign, DivAssign, ModAssign, BinaryXor, BinaryOr, BinaryAnd, BitwiseLs, BitwiseRs, Is }
+pub open spec fn op_assigns(o: Op) -> bool { o is AddAssign || o is SubAssign || o is MulAssign || o is DivAssign || o is ModAssign }
+// every operator that stores into its left operand
+pub open spec fn op_writes(o: Op) -> bool { op_assigns(o) || o is Unwrap }
+#[verifier::external_body] pub fn is_op_assign(o: &Op) -> (r: bool) ensures r == op_assigns(*o) { unimplemented!() }
+#[verifier::external_body] pub struct Flags { x: usize }
+// the recursive type query on an operand (abstract: arbitrary result)
+pub uninterp spec fn expr_type(e: &Expr, f: &Flags) -> Option<TypeLayout>;
+#[verifier::external_body] pub fn expr_for_type(e: &Expr, f: &Flags) -> (r: Result<TypeLayout, VErr>) ensures r is Ok <==> expr_type(e, f) is Some, r is Ok ==> r->Ok_0 == expr_type(e, f)->Some_0 { unimplemented!() }
+// the static operator table (unit c02_optable) incl. its wrappers
+pub uninterp spec fn output_type(l: &TypeLayout, r: &TypeLayout, o: Op, f: &Flags) -> Option<TypeLayout>;
+#[verifier::external_body] pub fn get_output_type(l: &TypeLayout, r: &TypeLayout, o: &Op, f: &Flags) -> (res: Option<TypeLayout>) ensures res == output_type(l, r, *o, f) { unimplemented!() }
+#[verifier::external_body] pub fn clone_ty(t: &TypeLayout) -> (r: TypeLayout) ensures r == *t { unimplemented!() }
+#[verifier::external_body] pub fn opt_ctx(o: Option<TypeLayout>) -> (r: Result<TypeLayout, VErr>) ensures r is Ok <==> o is Some, r is Ok ==> Some(r->Ok_0) == o { unimplemented!() }
+"""
+
+
+def build_for_type(repo):
+    from vlib.extract import extract_match_arm
+    src = Source(repo)
+    log = []
+    f = src.fn(MATH, "for_type", "impl Expr")
+    try:
+        arm = extract_match_arm(f["body"], "Expr :: BinOp { lhs , op , rhs }")
+    except Exception as e:
+        raise Undecided(f"{MATH}: arm Expr::BinOp of Expr::for_type not found: {e}")
+    rules = [
+        Rule("R3", "bail ! $a", "return Err ( VErr )", why="bail! -> return Err (diagnostic text dropped)"),
+        Rule("R1", "op . is_op_assign ( )", "is_op_assign ( op )", why="Op::is_op_assign with its spec"),
+        Rule("R1", "lhs . as_ref ( )", "lhs", why="Box<Expr> deref"),
+        Rule("R1", "Cow :: Owned ( $$e )", "$$e", why="Cow -> owned value"),
+        Rule("R1", "Cow :: Borrowed ( expected_type )", "clone_ty ( expected_type )", why="Cow::Borrowed -> copy of the type"),
+        Rule("R6", "index . for_type ( flags ) ?", "expr_for_type ( index , flags ) ?", why="recursive type query abstract"),
+        Rule("R6", "lhs . for_type ( flags ) ?", "expr_for_type ( lhs , flags ) ?", why="recursive type query abstract"),
+        Rule("R6", "rhs . for_type ( flags ) ?", "expr_for_type ( rhs , flags ) ?", why="recursive type query abstract"),
+        Rule("R1", "index @ Expr :: Index { .. }", "Expr :: Index { .. }", why="binding of the scrutinee itself"),
+        Rule("R6", "lhs . get_output_type ( & rhs , op , flags ) . with_context ( $$c )", "opt_ctx ( get_output_type ( & lhs , & rhs , op , flags ) )", why="operator table abstract; context text dropped"),
+        Rule("R1", "Value :: Ident", "ValueE :: Ident", why="enum renamed in the model"),
+        Rule("R6", "expr_for_type ( index , flags )", "expr_for_type ( lhs , flags )", why="`index @ pattern` names the scrutinee"),
+    ]
+    b = translate(arm["body"], rules, log, "Expr::for_type[BinOp]")
+    b = ["lhs_e" if (t == "lhs" and False) else t for t in b]
+    check_closed(b, "Expr::for_type[BinOp]")
+    # inside the Index arm `index` names the scrutinee: bind it
+    txt = render(b, 1)
+    gen = header(log, f"{MATH}: Expr::for_type, arm Expr::BinOp") + prelude("parser.rs") + FT_SPEC + f"""
+//@ OBL C10.for_type.binop
+pub fn for_type_binop(lhs: &Expr, op: &Op, rhs: &Expr, flags: &Flags) -> (r: Result<TypeLayout, VErr>)
+    ensures
+        // C10: every operator that stores into its left operand is rejected when that operand is a const name
+        (r is Ok && op_writes(*op) && lhs is Value && lhs->Value_0 is Ident) ==> !lhs->Value_0->Ident_0.read_only,
+        // C03: an accepted binary operation is supported by the operator table for the operand types
+        r is Ok ==> exists|l: TypeLayout, rt: TypeLayout| #[trigger] output_type(&l, &rt, *op, flags) == Some(r->Ok_0),
+{{
+{txt}
+}}
+}} // verus!
+fn main() {{}}
+"""
+    return gen, [Obl("C10.for_type.binop", ["C10", "C03"], fn="for_type_binop",
+                     desc="Expr::for_type (BinOp): `+= -= *= /= %=` and `?=` on a const name are rejected; an accepted operation has an entry in the operator table")], log
+
+
+UNITS.append(VUnit("c10_for_type", ["C10", "C03"], "const test of the writing operators; operator check", build_for_type))
+
+
+# =====================================================================================================================
+# Parser::number_loop, tail: the loop counter name (collision with an existing variable, const test) -- C01 / C10
+NL = "compiler/src/ast/number_loop.rs"
+NL_SPEC = r"""
+pub struct Ident { pub name: VStr, pub ty: Option<TypeLayout>, pub read_only: bool }
+impl Ident {
+    pub fn is_const(&self) -> (r: bool) ensures r == self.read_only { self.read_only }
+}
+#[verifier::external_body] pub fn ident_ty(i: &Ident) -> (r: &TypeLayout) requires i.ty is Some ensures *r == i.ty->Some_0 { unimplemented!() }   // ty().unwrap(): R8
+pub uninterp spec fn lookup_in_function(n: &Node, name: Seq<char>) -> Option<Ident>;
+pub uninterp spec fn lookup_local(n: &Node, name: Seq<char>) -> Option<Ident>;
+// idents registered in a scope are typed (AssocFileData::add_dependency is only called on typed idents): assumed
+#[verifier::external_body] pub fn has_name_been_mapped_in_function(n: &Node, name: &VStr) -> (r: Option<Ident>) ensures r == lookup_in_function(n, str_view(name)), r is Some ==> r->Some_0.ty is Some { unimplemented!() }
+#[verifier::external_body] pub fn get_ident_from_name_local(n: &Node, name: &VStr) -> (r: Option<Ident>) ensures r == lookup_local(n, str_view(name)), r is Some ==> r->Some_0.ty is Some { unimplemented!() }
+#[verifier::external_body] pub struct Block { x: usize }
+pub struct NumberLoop { pub inclusive: bool, pub val_start: Value, pub val_end: Value, pub step: Option<Value>, pub name: Option<Ident>, pub body: Block, pub name_is_collision: bool }
+pub uninterp spec fn inclusive_rule(n: &Node) -> bool;
+#[verifier::external_body] pub fn is_inclusive_rule(n: &Node) -> (r: bool) ensures r == inclusive_rule(n) { unimplemented!() }
+#[verifier::external_body] pub fn unwrap_block(b: Option<Block>) -> (r: Block) requires b is Some ensures Some(r) == b { unimplemented!() }
+#[verifier::external_body] pub fn opt_fst_ident(o: Option<(Ident, Span)>) -> (r: Option<Ident>) ensures o is None ==> r is None, o is Some ==> r == Some(o->Some_0.0) { unimplemented!() }
+#[verifier::external_body] pub fn opt_fst_value(o: Option<(Value, Span)>) -> (r: Option<Value>) ensures o is None ==> r is None, o is Some ==> r == Some(o->Some_0.0) { unimplemented!() }
+#[verifier::external_body] pub fn span_of_name(o: Option<(Ident, Span)>) -> (r: Span) { unimplemented!() }
+"""
+
+
+def slice_from(body, start_pat):
+    p = Pat(start_pat)
+    for i in range(len(body)):
+        if p.match_at(body, i):
+            return body[i:]
+    raise Undecided(f"fragment start `{start_pat}` not found")
+
+
+def build_number_loop(repo):
+    src = Source(repo)
+    log = []
+    f = src.fn(NL, "number_loop", "impl Parser")
+    frag = slice_from(f["body"], "let name_is_collision =")
+    rules = [
+        Rule("R3", "return Err ( vec ! [ new_err ( $$a ) ] ) ;", "return Err ( VErr ) ;", why="diagnostic dropped"),
+        Rule("R9", "name . as_ref ( ) . and_then ( | ( ident , _ ) | { $$b } )", "match & name { Some ( ( ident , _ ) ) => { $$b } , None => None }", why="Option::and_then with a closure -> match"),
+        Rule("R6", "input . user_data ( ) . has_name_been_mapped_in_function ( ident . name ( ) )", "has_name_been_mapped_in_function ( & input , & ident . name )", why="scope lookup abstract"),
+        Rule("R6", "input . user_data ( ) . get_ident_from_name_local ( ident . name ( ) )", "get_ident_from_name_local ( & input , & ident . name )", why="scope lookup abstract"),
+        Rule("R1", ". map ( | $v | $v . clone ( ) )", "", why="Option<&Ident> -> Option<Ident>: the abstract lookup already returns an owned ident"),
+        Rule("R1", ". cloned ( )", "", why="Option<&Ident> -> Option<Ident>"),
+        Rule("R6", "! collision . ty ( ) . unwrap ( ) . eq_complex ( & step_output_type , & TypecheckFlags :: < & ClassType > :: classless ( ) , )",
+             "! eq_complex ( ident_ty ( collision ) , & step_output_type , None , false )", why="existing.eq_complex(counter type) classless"),
+        Rule("R6", "inclusive_or_exclusive . as_rule ( ) == Rule :: number_loop_inclusive", "is_inclusive_rule ( & inclusive_or_exclusive )", why="pest rule test abstract"),
+        Rule("R8", "body . unwrap ( )", "unwrap_block ( body )", why="unwrap: the grammar guarantees a body block (precondition)"),
+        Rule("R9", "name . map ( | ( name , _ ) | name )", "opt_fst_ident ( name )", why="Option::map(first of pair)"),
+        Rule("R9", "step . map ( | ( val , _ ) | val )", "opt_fst_value ( step )", why="Option::map(first of pair)"),
+    ]
+    b = translate(frag, rules, log, "Parser::number_loop[tail]")
+    check_closed(b, "number_loop[tail]")
+    gen = header(log, f"{NL}: Parser::number_loop, from `let name_is_collision = ..` to the end") + prelude("parser.rs") + NL_SPEC + f"""
+//@ OBL C10.number_loop.counter
+pub fn number_loop_tail(input: Node, name: Option<(Ident, Span)>, step: Option<(Value, Span)>, body: Option<Block>, val_start: Value, val_end: Value,
+                        inclusive_or_exclusive: Node, step_output_type: TypeLayout) -> (r: Result<NumberLoop, VErr>)
+    requires body is Some                                   // grammar: a `from` loop always has a block
+    ensures r is Ok ==> ({{
+        let existing = if name is Some {{ lookup_in_function(&input, str_view(&name->Some_0.0.name)) }} else {{ None::<Ident> }};
+        // C01: the counter is "colliding" exactly when a variable of that name is visible in ANY enclosing block of the function
+        &&& r->Ok_0.name_is_collision == (existing is Some)
+        // C10: a const variable is never reused (and thereby overwritten) as a loop counter
+        &&& (existing is Some ==> !existing->Some_0.read_only)
+        // C03: the existing variable's type accepts the counter's type
+        &&& (existing is Some ==> compatible(&existing->Some_0.ty->Some_0, &step_output_type, None, false))
+        &&& r->Ok_0.inclusive == inclusive_rule(&inclusive_or_exclusive)
+        &&& (name is Some ==> r->Ok_0.name == Some(name->Some_0.0)) && (name is None ==> r->Ok_0.name is None)
+    }})
+{{
+{render(b, 1)}
+}}
+}} // verus!
+fn main() {{}}
+"""
+    return gen, [Obl("C10.number_loop.counter", ["C10", "C01", "C03"], fn="number_loop_tail",
+                     desc="Parser::number_loop (tail): collision flag = lookup over all blocks of the function; a const or incompatible existing variable is rejected as counter; to/through flag from the grammar rule")], log
+
+
+UNITS.append(VUnit("c10_number_loop", ["C10", "C01", "C03"], "from-loop counter: collision lookup, const test", build_number_loop))
